@@ -2,7 +2,7 @@
    point are exact.  Theorems only; proofs live in Proofs.v / Corollaries.v. *)
 From Coq Require Import ZArith List Bool.
 Import ListNotations.
-From KD Require Import C04.Model C04.Spec C04.Lists C04.Arith C04.Proofs C04.Corollaries C04.Example.
+From KD Require Import C04.Model C04.Spec C04.Lists C04.Arith C04.Proofs C04.Corollaries C04.Batches C04.Example.
 Open Scope Z_scope.
 
 (* The model of _training_loop, started at any epoch boundary, IS the closed-form
@@ -60,6 +60,12 @@ Theorem c04_always_ends : forall c mi, WF c mi -> forall e, before_budget c e ->
   exists tr, run c mi (default_fuel c (start_state c e)) (start_state c e) = Some tr.
 Proof. exact sampler_terminates. Qed.
 Print Assumptions c04_always_ends.
+
+(* always on a batch boundary: the batch sampler's trailing assertion cannot fire *)
+Theorem c04_ends_on_batch_boundary : forall c mi, WF c mi -> forall n e tr,
+  run c mi n (start_state c e) = Some tr -> snd (batches (render tr)) = true.
+Proof. exact ends_on_batch_boundary. Qed.
+Print Assumptions c04_ends_on_batch_boundary.
 
 (* non-vacuity: a well-formed configuration exists and is before its budget *)
 Example c04_premises_satisfiable : WF ex_cfg ex_iter /\ before_budget ex_cfg 0.
